@@ -107,7 +107,7 @@ UNIT = dict(
                  dict(rule="R5", kind="re", dotall=True, pat=r"unsafe \{\s*self\.allocator\.fast_forward\(([^;]*)\);\s*\}", repl=r"allocator.fast_forward(\1);", why="allocator call (unsafe fn; field passed explicitly)"),
              ],
              ensures=[
-                 ("C09,C06,C13:after_recovery_the_allocator_continues_at_the_id_the_scan_handed_back", "final(allocator).ff@ == old(allocator).ff@.push(next_block_id as u64)"),
+                 ("C09,C06,C13:after_recovery_the_allocator_continues_at_or_above_the_id_the_scan_handed_back", "final(allocator).ff@.len() == old(allocator).ff@.len() + 1 && final(allocator).ff@.last() >= next_block_id as u64"),
                  ("C11:recovery_ends_successfully_once_the_files_are_scanned", "ret is Ok"),
              ]),
     ],
